@@ -380,7 +380,7 @@ func (e *FunctionCallExpr) Value(ctx *hcl.EvalContext) (cty.Value, hcl.Diagnosti
 				})
 				return cty.DynamicVal, diags
 			}
-			return cty.DynamicVal, diags
+			return cty.DynamicVal.WithSameMarks(expandVal), diags
 		case expandVal.Type().IsTupleType() || expandVal.Type().IsListType() || expandVal.Type().IsSetType():
 			if expandVal.IsNull() {
 				diags = append(diags, &hcl.Diagnostic{
@@ -396,7 +396,7 @@ func (e *FunctionCallExpr) Value(ctx *hcl.EvalContext) (cty.Value, hcl.Diagnosti
 				return cty.DynamicVal, diags
 			}
 			if !expandVal.IsKnown() {
-				return cty.DynamicVal, diags
+				return cty.DynamicVal.WithSameMarks(expandVal), diags
 			}
 
 			// When expanding arguments from a collection, we must first unmark
